@@ -16,6 +16,7 @@ of registrations (no size bound) in the given order, and every request.
 import PubModel.C20.LemmasMux
 import PubModel.C20.LemmasOrder
 import PubModel.C20.LemmasMuxOrder
+import PubModel.C20.LemmasMuxDir
 import PubModel.C20.LemmasTiers
 
 namespace PubModel.C20
@@ -175,6 +176,46 @@ theorem mux_order_independent (sl : α) (ops₁ ops₂ : List (MuxOp H α)) (hpe
   · intro s
     rw [(SMux.build_lookup sl ops₁ hd s).2, (SMux.build_lookup sl ops₂ hd2 s).2]
     exact (muxTables_perm hperm hn s).2
+
+/-- **independent of registration order, full mixture Prefix / Exact / Dir**: `Dir(s)` puts
+    `dirBase s` into the exact table and `dirPfx s` (= base ++ "/") into the prefix table.
+    Registrations whose exact keys are pairwise different and whose prefix keys are pairwise
+    different route every path alike in every order. -/
+theorem mux_order_independent_full (sl : α) (ops₁ ops₂ : List (MuxOp H α)) (hperm : ops₁.Perm ops₂)
+    (hne : (ops₁.filterMap (MuxOp.exKey sl)).Nodup) (hnp : (ops₁.filterMap (MuxOp.pfKey sl)).Nodup)
+    (path : List α) :
+    (Mux.build sl ops₁).1.route path = (Mux.build sl ops₂).1.route path := by
+  rw [(mux_route sl ops₁ path).1, (mux_route sl ops₂ path).1]
+  have hne2 : (ops₂.filterMap (MuxOp.exKey sl)).Nodup :=
+    (hperm.filterMap _).nodup_iff.mp hne
+  apply SMux.route_congr
+  · intro s
+    rw [(SMux.build_lookupD sl ops₁ hne s).1, (SMux.build_lookupD sl ops₂ hne2 s).1]
+    exact (muxTablesD_perm sl hperm hne hnp s).1
+  · intro s
+    rw [(SMux.build_lookupD sl ops₁ hne s).2, (SMux.build_lookupD sl ops₂ hne2 s).2]
+    exact (muxTablesD_perm sl hperm hne hnp s).2
+
+/-- the hypothesis is exact: with a duplicate exact key the order matters beyond "first wins",
+    because a `Dir` whose exact part is refused (it returns the error) does not register its
+    prefix part either.  `Exact("a")` then `Dir("a")` leaves "a/x" unrouted, the other order
+    routes it. -/
+theorem mux_dir_duplicate_order_dependent :
+    ((Mux.build '/' [MuxOp.exact "a".toList 1, .dir "a".toList 2] : Mux Nat Char × List RegRes).2 = [.ok, .dupExact] ∧
+     (Mux.build '/' [MuxOp.exact "a".toList 1, .dir "a".toList 2] : Mux Nat Char × List RegRes).1.route "a/x".toList = none) ∧
+    ((Mux.build '/' [MuxOp.dir "a".toList 2, .exact "a".toList 1] : Mux Nat Char × List RegRes).2 = [.ok, .dupExact] ∧
+     (Mux.build '/' [MuxOp.dir "a".toList 2, .exact "a".toList 1] : Mux Nat Char × List RegRes).1.route "a/x".toList = some 2) := by
+  decide
+
+-- non-vacuity of the full mixture: Dir "a/", Prefix "a/b", Exact "a/b", Dir "/" in two orders
+example :
+    ((Mux.build '/' [MuxOp.dir "a/".toList 1, .pfx "a/b".toList 2, .exact "a/b".toList 3, .dir "/".toList 4]
+        : Mux Nat Char × List RegRes).1.route <$> ["a".toList, "a/".toList, "a/b".toList, "a/bc".toList, "/x".toList, "x".toList])
+      = [some 1, some 1, some 3, some 2, some 4, none] ∧
+    ((Mux.build '/' [MuxOp.dir "/".toList 4, .exact "a/b".toList 3, .pfx "a/b".toList 2, .dir "a/".toList 1]
+        : Mux Nat Char × List RegRes).1.route <$> ["a".toList, "a/".toList, "a/b".toList, "a/bc".toList, "/x".toList, "x".toList])
+      = [some 1, some 1, some 3, some 2, some 4, none] := by
+  decide
 
 -- non-vacuity: exact beats prefix, longest prefix wins, Dir registers both, duplicates are refused
 example :
@@ -410,6 +451,41 @@ theorem router_order_independent (sl : α) (idx dflt : Option H) (ops₁ ops₂ 
   rw [(SRouter.build_lookup sl idx dflt ops₁ k).1, (SRouter.build_lookup sl idx dflt ops₂ k).1]
   exact routeTable_perm sl hp hn k
 
+/-- the registration API of `Router`: `File`, `MethodFile`, `Get`, `Post`, `Dir` -/
+inductive RouterReg (H α : Type) where
+  | file (p : List α) (f : H)
+  | methodFile (m p : List α) (f : H)
+  | get (p : List α) (f : H)
+  | post (p : List α) (f : H)
+  | dir (p : List α) (f : H)
+
+def RouterReg.path : RouterReg H α → List α
+  | .file p _ | .methodFile _ p _ | .get p _ | .post p _ | .dir p _ => p
+
+/-- the `routerNode` each API call builds (`getM`, `postM` are "GET" and "POST") -/
+def RouterReg.toOp (getM postM : List α) : RouterReg H α → List α × RNode H α
+  | .file p f => (p, ⟨f, false, []⟩)
+  | .methodFile m p f => (p, ⟨f, false, m⟩)
+  | .get p f => (p, ⟨f, false, getM⟩)
+  | .post p f => (p, ⟨f, false, postM⟩)
+  | .dir p f => (p, ⟨f, true, []⟩)
+
+/-- **independent of registration order, full mixture File / MethodFile / Get / Post / Dir**:
+    any permutation of a registration list with pairwise different canonical routes yields
+    the same decision for every path, every method and every shift. -/
+theorem router_order_independent_mixed (sl : α) (getM postM : List α) (idx dflt : Option H)
+    (regs₁ regs₂ : List (RouterReg H α)) (hp : regs₁.Perm regs₂)
+    (hn : (regs₁.map (fun r => segsOf sl r.path)).Nodup)
+    (c : Ctx α) (hc : c.route = newRoute sl c.path) :
+    (Router.build sl idx dflt (regs₁.map (RouterReg.toOp getM postM))).1.serve c =
+    (Router.build sl idx dflt (regs₂.map (RouterReg.toOp getM postM))).1.serve c := by
+  apply router_order_independent sl idx dflt _ _ (hp.map _) _ c hc
+  rw [List.map_map]
+  have : ((fun op : List α × RNode H α => segsOf sl op.1) ∘ RouterReg.toOp getM postM) =
+      fun r : RouterReg H α => segsOf sl r.path := by
+    funext r; cases r <;> rfl
+  rw [this]; exact hn
+
 /-- what an example needs to see of a decision: kind, handler, route position, `Rel()` -/
 def Served.summary : Served H α → String × Option H × Nat × List α
   | .index h c => ("index", some h, c.pos, c.rel)
@@ -438,6 +514,27 @@ example : exReq "POST" "/b/a/x//y/" = ("node", some 2, 2, "x/y".toList) := by de
 example : exReq "GET" "/b/x" = ("default", some 91, 1, "x".toList) := by decide
 example : exReq "GET" "/" = ("index", some 90, 0, []) := by decide
 example : exReq "GET" "/c" = ("default", some 91, 0, "c".toList) := by decide
+
+-- non-vacuity of the mixture: Dir "a", File "a/b", Dir "a/b/c" (shared prefix) and Get "a/d",
+-- registered in all six orders of the first three, decide ten requests alike — and as expected
+def exMixedRegs : List (List (RouterReg Nat Char)) :=
+  let d1 := RouterReg.dir "a".toList 1
+  let f2 := RouterReg.file "a/b".toList 2
+  let d3 := RouterReg.dir "/a/b/c/".toList 3
+  let g4 := RouterReg.get "a/d".toList 4
+  [[d1, f2, d3, g4], [d1, d3, f2, g4], [f2, d1, d3, g4], [f2, d3, g4, d1], [d3, d1, g4, f2], [g4, d3, f2, d1]]
+
+def exMixedServe (regs : List (RouterReg Nat Char)) : List (String × Option Nat × Nat × List Char) :=
+  let r := (Router.build '/' none (some 91) (regs.map (RouterReg.toOp "GET".toList "POST".toList))).1
+  [("GET", "/a"), ("GET", "/a/"), ("GET", "/a/b"), ("GET", "/a/b/"), ("POST", "/a/b/x"), ("GET", "/a/b/c"),
+   ("POST", "a/b/c/x//y/"), ("GET", "/a/x/y"), ("GET", "/a/d"), ("POST", "/a/d")].map fun (m, p) =>
+    (r.serve (Ctx.new '/' p.toList m.toList [])).summary
+
+example : exMixedRegs.map exMixedServe = List.replicate 6
+    [("node", some 1, 1, []), ("node", some 1, 1, []), ("node", some 2, 2, []), ("default", some 91, 2, []),
+     ("default", some 91, 2, "x".toList), ("node", some 3, 3, []), ("node", some 3, 3, "x/y".toList),
+     ("node", some 1, 1, "x/y".toList), ("node", some 4, 2, []), ("badmethod", none, 0, [])] := by
+  decide
 
 end Router
 
